@@ -494,12 +494,19 @@ func (el *eventloop) msgTimeout() {
 			v.Error = codec.ErrMsgRequestTimeout
 			v.Done = true
 		}
+		// the request is complete: its reply is the timeout error, delivered in its place in the
+		// pipeline like any other reply
 		msg.Error = codec.ErrMsgRequestTimeout
+		msg.FragDoneNumber = len(msg.Body)
+		msg.RspBody = append(msg.RspBody[:0], codec.ErrMsgRequestTimeout.Bytes()...)
+		msg.Done = true
 		if c == nil || !c.IsOpened() {
 			logging.Warnf("[%dm|%df][%dc] try to send request timeout but client already closed", frag.MsgId(), frag.Id, frag.OwnerFd())
 			continue
 		}
-		c.AsyncWrite(codec.ErrMsgRequestTimeout.Bytes(), nil)
+		if cc, ok := c.(*conn); ok {
+			el.flushDone(cc)
+		}
 		logging.Warnf("[%dm|%df][%dc] request timeout, consider raising config '[proxy]timeout=%d', send res: %s", frag.MsgId(), frag.Id, frag.OwnerFd(), el.engine.opts.RedisRequestTimeout, codec.ErrMsgRequestTimeout.ShortString())
 	}
 }
